@@ -404,25 +404,62 @@ func c07Decode(c obj, mode string) obj {
 			src = c07ReuseAnchors(src)
 		}
 		ev["text"] = src
+		// keyval: next to the graph, anchored NON-STRING scalars sit in key position (an int written in hex, a bool, a float) and
+		// aliases to them are used as VALUES further down: each alias is a copy of the anchored scalar - 16, true, 2.5 - whatever
+		// the mapping made of its key
+		kvPre, kvPost := "", ""
+		if c["keyval"] == true {
+			kvPre, kvPost = "kvdef: {&kv 0x10 : v, &kb True : w, &kf 2.5 : x}, ", ", kvuse: [*kv , *kb , *kf ], kvmap: {n: *kv }"
+		}
+		kvOK := func(get func(string) (any, bool)) bool {
+			if c["keyval"] != true {
+				return true
+			}
+			use, ok1 := get("kvuse")
+			km, ok2 := get("kvmap")
+			def, ok3 := get("kvdef")
+			if !ok1 || !ok2 || !ok3 {
+				return false
+			}
+			ub, _ := json.Marshal(use)
+			kb, _ := json.Marshal(km)
+			db, _ := json.Marshal(def)
+			return string(ub) == "[16,true,2.5]" && string(kb) == `{"n":16}` && string(db) == `{"16":"v","true":"w","2.5e+00":"x"}`
+		}
 		if mode == "text" {
 			run = func() res {
 				var n yaml.Node
-				if err := yaml.Unmarshal([]byte(src), &n); err != nil {
-					panic("driver: yaml.v3 rejects the rendered text: " + err.Error() + "\n" + src)
+				full := "{" + kvPre + "graph: " + src + kvPost + "}"
+				if err := yaml.Unmarshal([]byte(full), &n); err != nil {
+					panic("driver: yaml.v3 rejects the rendered text: " + err.Error() + "\n" + full)
 				}
 				v, err := ordered.DecodeYAML(&n)
-				return res{v, err}
+				if err != nil {
+					return res{nil, err}
+				}
+				m, ok := v.(*ordered.MapSA)
+				if !ok {
+					return res{nil, fmt.Errorf("the document did not decode to a mapping")}
+				}
+				gv, _ := m.Get("graph")
+				if !kvOK(m.Get) {
+					return res{gv, fmt.Errorf("keyval: an alias of an anchored scalar key is not a copy of that scalar: %v", v)}
+				}
+				return res{gv, nil}
 			}
 		} else {
 			// the graph under an unknown top-level key of a pipeline
 			run = func() res {
-				p, err := pipeline.Parse(strings.NewReader("{steps: [], graph: " + src + "}"))
+				p, err := pipeline.Parse(strings.NewReader("{steps: [], " + kvPre + "graph: " + src + kvPost + "}"))
 				if err != nil && !warning.Is(err) {
 					return res{nil, err}
 				}
 				v, ok := p.RemainingFields["graph"]
 				if !ok {
 					return res{nil, fmt.Errorf("graph key lost")}
+				}
+				if !kvOK(func(k string) (any, bool) { x, ok := p.RemainingFields[k]; return x, ok }) {
+					return res{v, fmt.Errorf("keyval: an alias of an anchored scalar key is not a copy of that scalar")}
 				}
 				return res{v, nil}
 			}
@@ -673,7 +710,7 @@ func c07RandomCase(rng *rand.Rand) obj {
 			continue
 		}
 		g["S"] = []any{}
-		return obj{"g": g, "root": root, "akeys": rng.Intn(2) == 0, "spell": rng.Intn(2) == 0, "dupanc": rng.Intn(3) == 0, "poison": rng.Intn(4) == 0, "child": cyclic, "cyc": false}
+		return obj{"g": g, "root": root, "akeys": rng.Intn(2) == 0, "spell": rng.Intn(2) == 0, "dupanc": rng.Intn(3) == 0, "keyval": rng.Intn(3) == 0, "poison": rng.Intn(4) == 0, "child": cyclic, "cyc": false}
 	}
 }
 
